@@ -332,6 +332,7 @@ def check_order(ctx):
 
 
 def run(ctx):
+    from .C07 import _Relabel
     check_pickle(ctx)
     from .C02 import check_cache
     check_cache(ctx, "C05-CACHE")
@@ -340,9 +341,16 @@ def run(ctx):
     check_feed(ctx)
     check_seq(ctx)
     check_order(ctx)
+    from .C06 import check_site
+    from .C02 import check_acc
+    ctx.rule("C05-SPACE", "what the sampler reports for a returned row is the likelihood computed for that row: ln_likelihood = L[G] with L the evaluated array and G the accepted "
+                          "positions (shared with C06-SPACE), and the acceptance runs over exactly the values evaluated so far (shared with C02-ACC).")
+    for mod, name in _rej.SITES:
+        S = _rej.analyze(ctx.prog, mod, name)
+        check_site(_Relabel(ctx, {"C06-SPACE": "C05-SPACE", "C06-FIELD": "C05-SPACE", "C06-ALL": "C05-SPACE"}), S)
+        check_acc(_Relabel(ctx, {"C02-ACC": "C05-SPACE"}), S)
     ctx.rule("C05-PART", "batches partition the rows exactly once and in order for every n_batches (shared implementation with C16-P / C16-RUN).")
     from .C16 import check_batch_tasks, check_run_worker
-    from .C07 import _Relabel
     check_batch_tasks(_Relabel(ctx, {"C16-P": "C05-PART"}))
     check_run_worker(_Relabel(ctx, {"C16-RUN": "C05-PART"}))
     ctx.rule("C05-ROWS", "the batch readers return the requested rows in the requested order with the requested columns and units (shared with C12-COL): "
